@@ -65,6 +65,9 @@ pub mod s2 {
 pub mod s3 {
     include!(concat!(env!("OUT_DIR"), "/example.Greeter.rs"));
 }
+pub mod s4 {
+    include!(concat!(env!("OUT_DIR"), "/opt.Maybe.rs"));
+}
 
 // ============================================================ (i) token level, random definitions
 
@@ -309,6 +312,11 @@ fn plan(tag: &str, m: &Msg) -> Result<Response<Msg>, Status> {
         for (i, b) in m.blob.iter().take(3).enumerate() {
             s = s.with_header(format!("x-h{i}"), format!("v{b}"));
         }
+        if m.blob.len() % 4 == 3 {
+            // a handler that passes on the headers of an error it received downstream: among them is the
+            // downstream's status-message; its own message is the one the caller must see
+            s = s.with_header("status-message", "downstream said something else");
+        }
         Err(s)
     } else {
         // "poisonresp:" = the handler answers with a message that cannot be serialized
@@ -371,7 +379,16 @@ impl s3::greeter_server::Greeter for Log {
     }
 }
 
-pub const METHODS: [&str; 12] = ["s1.ping", "s1.ping_pong", "s1.pin", "s1.raw", "s2.ping", "s2.ping_pong", "s2.pin", "s2.raw", "s3.say_hello", "s3.x", "s3.sayhello", "s3.z9"];
+#[anemo::async_trait]
+impl s4::maybe_server::Maybe for Log {
+    async fn maybe(&self, r: Request<Option<Msg>>) -> Result<Response<Option<Msg>>, Status> {
+        let m = r.body().clone().unwrap_or_default();
+        self.0.lock().unwrap().push(("s4.maybe".into(), m.clone()));
+        plan("s4.maybe", &m).map(|resp| resp.map(Some))
+    }
+}
+
+pub const METHODS: [&str; 13] = ["s1.ping", "s1.ping_pong", "s1.pin", "s1.raw", "s2.ping", "s2.ping_pong", "s2.pin", "s2.raw", "s3.say_hello", "s3.x", "s3.sayhello", "s3.z9", "s4.maybe"];
 /// (route, json codec) per method, from the reference formula
 pub fn route_of(method: &str) -> (&'static str, bool) {
     match method {
@@ -386,6 +403,7 @@ pub fn route_of(method: &str) -> (&'static str, bool) {
         "s3.say_hello" => ("/example.Greeter/SayHello", false),
         "s3.x" => ("/example.Greeter/Ping", false),
         "s3.sayhello" => ("/example.Greeter/Say", true),
+        "s4.maybe" => ("/opt.Maybe/Maybe", true),
         _ => ("/example.Greeter/say_hello", false),
     }
 }
@@ -396,9 +414,10 @@ pub fn router(log: &Log) -> Router {
 
 pub fn router_assembled(log: &Log, assembly: u8) -> Router {
     let (a, b, c) = (s1::echo_server::EchoServer::new(log.clone()), s2::echo_server::EchoServer::new(log.clone()), s3::greeter_server::GreeterServer::new(log.clone()));
+    let d = s4::maybe_server::MaybeServer::new(log.clone());
     match assembly % 3 {
-        0 => Router::new().add_rpc_service(a).add_rpc_service(b).add_rpc_service(c),
-        1 => Router::new().add_rpc_service(a).merge(Router::new().add_rpc_service(b)).merge(Router::new().merge(Router::new().add_rpc_service(c))),
+        0 => Router::new().add_rpc_service(a).add_rpc_service(b).add_rpc_service(c).add_rpc_service(d),
+        1 => Router::new().add_rpc_service(a).merge(Router::new().add_rpc_service(b)).merge(Router::new().merge(Router::new().add_rpc_service(c))).merge(Router::new().add_rpc_service(d)),
         _ => {
             let plain = tower::service_fn(|_r: Request<Bytes>| async move { Ok::<_, std::convert::Infallible>(Response::new(Bytes::from_static(b"plain"))) });
             Router::new()
@@ -406,6 +425,7 @@ pub fn router_assembled(log: &Log, assembly: u8) -> Router {
                 .route_layer(tower::layer::util::Identity::new())
                 .merge(Router::new().add_rpc_service(a).add_rpc_service(b))
                 .merge(Router::new().add_rpc_service(c).route_layer(tower::layer::util::Identity::new()))
+                .add_rpc_service(d)
         }
     }
 }
@@ -447,6 +467,7 @@ where
         "s3.say_hello" => s3::greeter_client::GreeterClient::new(svc).say_hello(msg).await,
         "s3.x" => s3::greeter_client::GreeterClient::new(svc).x(msg).await,
         "s3.sayhello" => s3::greeter_client::GreeterClient::new(svc).sayhello(msg).await,
+        "s4.maybe" => s4::maybe_client::MaybeClient::new(svc).maybe(Some(msg)).await.map(|r| r.map(|m| m.unwrap_or_default())),
         _ => s3::greeter_client::GreeterClient::new(svc).z9(msg).await,
     }
 }
@@ -468,7 +489,9 @@ impl tower::Service<Request<Bytes>> for Canned {
     }
 }
 
-fn decodes(json: bool, bytes: &[u8]) -> bool {
+/// Whether `bytes` are a message of the method's type (s4.maybe takes Option<Msg>: JSON `null` is one, an empty payload is not).
+fn decodes_for(method: &str, json: bool, bytes: &[u8]) -> bool {
+    if method == "s4.maybe" { return serde_json::from_slice::<Option<Msg>>(bytes).is_ok(); }
     if json { serde_json::from_slice::<Msg>(bytes).is_ok() } else { bincode::deserialize::<Msg>(bytes).is_ok() }
 }
 
@@ -509,6 +532,7 @@ where
                         let got_msg = got.headers().get("status-message").cloned().unwrap_or_default();
                         vensure!(got_msg == want_msg, "c17:status-message", "call {i} ({method}): the handler's status message ({} bytes) arrived as {} bytes{}", want_msg.len(), got_msg.len(), if got_msg.len() < 200 { format!(": {got_msg:?}") } else { String::new() });
                         for (k, v) in want.headers() {
+                            if k == "status-message" { continue; } // carries the message (checked above)
                             vensure!(got.headers().get(k) == Some(v), "c17:status-headers", "call {i} ({method}): header {k} of the handler's status is missing or changed");
                         }
                         obs.label("typed:error-status");
@@ -526,7 +550,7 @@ where
                     Err(e) => vfail!("c17:transport", "call {i}: raw request failed: {e:?}"),
                 };
                 let invoked = log.0.lock().unwrap().len() - before;
-                if decodes(json, bytes) {
+                if decodes_for(method, json, bytes) {
                     obs.label("garbage-that-decodes");
                 } else {
                     vensure!(!resp.status().is_success(), "c17:garbage-accepted", "call {i}: undecodable payload ({} bytes) sent to {route} was answered with success", bytes.len());
@@ -540,7 +564,7 @@ where
                 let r = typed(Canned(code.to_u16(), Bytes::from(body.clone())), method, Msg::default()).await;
                 match r {
                     Ok(resp) => {
-                        vensure!(code.is_success() && decodes(json, body), "c17:wrong-typed-success", "call {i} ({method}): response with status {:?} and a {}-byte payload surfaced as a typed success {:?}", code, body.len(), resp.body());
+                        vensure!(code.is_success() && decodes_for(method, json, body), "c17:wrong-typed-success", "call {i} ({method}): response with status {:?} and a {}-byte payload surfaced as a typed success {:?}", code, body.len(), resp.body());
                     }
                     Err(s) => {
                         if !code.is_success() {
@@ -607,15 +631,15 @@ impl Part for Calls {
     type Case = CallCase;
     fn name(&self) -> &'static str { "typed-calls" }
     fn rule(&self) -> &'static str {
-        "three services compiled into the harness by its build.rs from the CURRENT anemo-build (no package / dotted package / single package; route names that are prefixes of each other; the same service and route names in two services; both codecs; raw-bytes handlers), all mounted on one Router (add_rpc_service directly, or each service on its own router merged in, or merged into a router that already has routes and a route layer), called in-process and over the simulated network: typed calls with generated messages (some of which cannot be serialized, as request or as the handler's response) and planned handler results (Ok(message) or Err(Status{code, message of 0-3000 bytes incl. multi-byte text or no message at all, headers})), undecodable request payloads (0-40 bytes, incl. very short ones) sent to method routes, and hostile responses (any status, any payload) handed to the typed clients; oracle: a typed call invokes exactly the same-named handler with an equal message and returns its response, or the handler's status with equal code, message and headers; a message that cannot be serialized surfaces as an error status and leaves every later call intact; undecodable payloads get a non-success status and reach no handler; undecodable or non-success responses surface as Err(Status); never a panic; non-trivial = every case except plain empty messages; distinct by case"
+        "four services compiled into the harness by its build.rs from the CURRENT anemo-build (no package / dotted package / single package; route names that are prefixes of each other; the same service and route names in two services; both codecs; raw-bytes handlers; one method whose message type is Option<..> under JSON, for which `null` is a message and an empty payload is not), all mounted on one Router (add_rpc_service directly, or each service on its own router merged in, or merged into a router that already has routes and a route layer), called in-process and over the simulated network: typed calls with generated messages (some of which cannot be serialized, as request or as the handler's response) and planned handler results (Ok(message) or Err(Status{code, message of 0-3000 bytes incl. multi-byte text or no message at all, headers})), undecodable request payloads (0-40 bytes, incl. very short ones) sent to method routes, and hostile responses (any status, any payload) handed to the typed clients; oracle: a typed call invokes exactly the same-named handler with an equal message and returns its response, or the handler's status with equal code, message and headers; a message that cannot be serialized surfaces as an error status and leaves every later call intact; undecodable payloads get a non-success status and reach no handler; undecodable or non-success responses surface as Err(Status); never a panic; non-trivial = every case except plain empty messages; distinct by case"
     }
     fn strategy(&self, _t: Tier) -> BoxedStrategy<CallCase> {
         let msg = (any::<u64>(), prop_oneof![6 => "[a-z ]{0,12}", 4 => "err:[a-z]{0,8}", 2 => "errnomsg:[a-z]{0,3}", 1 => "err:\\PC{300,1500}", 1 => "err:[a-z]{1000,3000}", 2 => "\\PC{0,20}", 1 => "poisonresp:[a-z]{0,4}"], prop::collection::vec(any::<u8>(), 0..40), prop::bool::weighted(0.08)).prop_map(|(id, text, blob, poison)| Msg { id, text, blob, poison: Poison(poison) });
         let garbage = prop_oneof![2 => prop::collection::vec(any::<u8>(), 0..16), 2 => prop::collection::vec(any::<u8>(), 16..41), 1 => "[ -~]{0,30}".prop_map(|s| s.into_bytes())];
         let call = prop_oneof![
-            5 => (0u8..12, msg).prop_map(|(m, msg)| Call::Typed(m, msg)),
-            2 => (0u8..12, garbage.clone()).prop_map(|(m, b)| Call::GarbageRequest(m, b)),
-            2 => (0u8..12, prop_oneof![Just(200u16), Just(400), Just(404), Just(408), Just(429), Just(500), Just(505), Just(520)], garbage).prop_map(|(m, s, b)| Call::HostileResponse(m, s, b)),
+            5 => (0u8..13, msg).prop_map(|(m, msg)| Call::Typed(m, msg)),
+            2 => (0u8..13, garbage.clone()).prop_map(|(m, b)| Call::GarbageRequest(m, b)),
+            2 => (0u8..13, prop_oneof![Just(200u16), Just(400), Just(404), Just(408), Just(429), Just(500), Just(505), Just(520)], garbage).prop_map(|(m, s, b)| Call::HostileResponse(m, s, b)),
         ];
         (prop::bool::weighted(0.3), prop::collection::vec(call, 1..12), 0u8..3).prop_map(|(over_network, calls, assembly)| CallCase { over_network, calls, assembly }).boxed()
     }
@@ -625,7 +649,7 @@ impl Part for Calls {
 pub fn run(tier: Tier) -> i32 {
     let mut ctx = Ctx::new("C17", tier);
     ctx.assume("randomly generated definitions are checked at token level only (compiling each would need minutes); the compiled family covers the behavioural clauses");
-    ctx.assume("reserved header keys (status-message, content-type) are not generated as user headers");
+    ctx.assume("content-type is not generated as a user header; a status-message header copied in by the handler must not displace the handler's own message");
     ctx.run_part(Definitions, tier.pick(10_000, 800_000));
     ctx.run_part(Calls, tier.pick(12_000, 1_200_000));
     ctx.finish()
